@@ -259,7 +259,7 @@ func runC11(c *Ctx) {
 		fn := m("Reset")
 		z := map[*types.Var]bool{}
 		for _, cur := range []*types.Var{head, tail, used} {
-			for _, a := range storesTo(fn, cur) {
+			for _, a := range storesDeep(fn, cur) {
 				if isConstInt(a.Val, 0) {
 					z[cur] = true
 				}
